@@ -93,7 +93,7 @@ BOUND = {
              '{single, double}^2 x chain / star) x the 2 labellings in which the third '
              'atom repeats the label of the first or of the second x all sequences of '
              'length <= 2 over the full block-level alphabet (20 edits) and of length 3 '
-             'over the basic one (8 edits); 274 labelled patterns; same molecules as the '
+             'over the basic one (8 edits); 490 labelled patterns; same molecules as the '
              'unimolecular family',
     'thorough': 'as quick with length-3 sequences over the full alphabet for '
                 '1-2 atom patterns, length 4 over the basic edits, triple bonds '
@@ -109,7 +109,7 @@ BOUND = {
                 '{C?, H} x every labelling with a repeated label that keeps `bond to` '
                 'unambiguous, sequences of length <= 2 over the basic block-level '
                 'alphabet and the radical edits of every label, length 3 over the '
-                'radical edits of the first repeated label; molecules of the thorough '
+                'radical edits of the first repeated label; 995 labelled patterns; molecules of the thorough '
                 'unimolecular family'}
 RULE = ('every (pattern, edit sequence) is written as rule text and read; '
         'sequences that are well defined on the evolving pattern are judged: '
